@@ -10,7 +10,14 @@ passes full validation; otherwise nothing is stored and an error status is retur
    (thorough: x {container known / unknown}); object validation is the real putsvc.ValidateAndStoreObjectLocally
    over a recording local storage.
 3. TLC judges every record with Accept (TraceReplicate): ok => Accept(in), stored or present-afterwards =>
-   Accept(in), ok => stored; Accept(in) /\ ~ok (handler stricter than the reference) is reported as drift (exit 2)."""
+   Accept(in), ok => stored; Accept(in) /\ ~ok (handler stricter than the reference) is reported as drift (exit 2).
+4. Histories (server-side memory across requests): Replicate.tla is a state machine - epochs advance, the membership
+   of every sender and of the local node changes per epoch, requests arrive in between. TLC generates histories
+   (ReplicateGen: EVERY history of length 5 / 7 over a reduced alphabet {tick with sender in, tick with sender out,
+   valid request}, plus -simulate over the rich alphabet); a seeded Go generator adds biased random ones. Each
+   history is replayed on ONE fresh real objectsvc.Server while the fake FS chain's epoch / membership changes
+   between the requests, and TLC (TraceReplicateHist) judges every answer against the STATELESS reference applied
+   to the membership at the time of the request."""
 import json
 import os
 
@@ -18,14 +25,96 @@ import rpc_util
 import vkit
 
 LEVEL = "exploration"
-PROP_INVS = {"RecStoredOnlyIfAccepted", "RecOkOnlyIfAccepted", "RecOkMeansStored"}
-DRIFT_INVS = {"RecAcceptedWhenAllChecksPass"}
+PROP_INVS = {"StoredOnlyIfAccepted", "OkOnlyIfAccepted", "OkMeansStored"}
+DRIFT_INVS = {"AcceptedWhenAllChecksPass"}
+
+
+def split_histories(ev):
+    """[(first_index, last_index)] (0-based, inclusive) of every history in the event list (each starts with New)."""
+    starts = [i for i, e in enumerate(ev) if e["ev"] == "New"]
+    return [(a, (starts[k + 1] - 1 if k + 1 < len(starts) else len(ev) - 1)) for k, a in enumerate(starts)]
+
+
+def script_of(evs):
+    return {"steps": [{k: v for k, v in e.items() if k not in ("out", "code", "epoch")} for e in evs if e["ev"] != "New"]}
+
+
+def histories(ck, binp):
+    """Step 4. Returns (number of histories, number of requests, violations found)."""
+    thorough = ck.tier == "thorough"
+    scripts = []
+    if ck.replay:
+        scripts = [json.load(open(ck.replay))["replay"]["hist"]]
+    else:
+        r = ck.tlc("ReplicateGen", "ReplicateGen_all7.cfg" if thorough else "ReplicateGen_all.cfg", timeout=600, workers=1, deadlock=False, count=False)
+        allh = []
+        for ln in r.out.splitlines():
+            if ln.startswith('<<"BEH", '):
+                allh.append(json.loads(json.loads(ln[len('<<"BEH", '):].rstrip()[:-2])))
+        if r.kind != "ok" or len(allh) < 243:
+            raise vkit.Infra("exhaustive history generation failed: %s, %d histories\n%s" % (r.kind, len(allh), vkit.tail(r.out, 2000)))
+        for h in allh:
+            h["src"] = "tlc-all"
+        sim = ck.tlc_scripts("ReplicateGen", "ReplicateGen_sim.cfg", num=150 if thorough else 12, depth=9, seed=ck.seed)
+        for h in sim:
+            h["src"] = "tlc-simulate"
+        rndp = os.path.join(ck.tmp, "hist-rnd.ndjson")
+        ck.harness(binp, ["replicate-gen", 3000 if thorough else 300, rndp])
+        scripts = allh + sim + vkit.read_ndjson(rndp)
+        ck.setcov("histories_by_source", {"tlc_exhaustive_reduced_alphabet": len(allh), "tlc_simulate": len(sim), "seeded_random": len(scripts) - len(allh) - len(sim)})
+    sp, tp = os.path.join(ck.tmp, "hist-scripts.ndjson"), os.path.join(ck.tmp, "hist-trace.ndjson")
+    vkit.write_ndjson(sp, scripts)
+    p = ck.harness(binp, ["replicate-hist", sp, tp], timeout=1500)
+    summ = json.loads(p.stdout.strip().splitlines()[-1])
+    ev = vkit.read_ndjson(tp)
+    if not ck.replay:
+        multi = 0
+        for a, b in split_histories(ev):
+            oks = [e for e in ev[a:b + 1] if e["ev"] == "Req" and e["out"]["ok"]]
+            if len(oks) >= 2 and len({e["epoch"] for e in oks}) >= 2:
+                multi += 1
+        ck.setcov("histories_with_accepted_requests_in_two_epochs", multi)
+        if summ["accepted"] < 50 or multi < 20:
+            raise vkit.Infra("vacuous histories: %s, %d with accepted requests in two epochs" % (json.dumps(summ), multi))
+    nviol, drift = 0, []
+    rest = ev
+    while nviol < 3 and len(drift) < 20:
+        tpk = os.path.join(ck.tmp, "hist-trace-%d.ndjson" % (nviol + len(drift)))
+        vkit.write_ndjson(tpk, rest)
+        r = ck.tlc_validate("TraceReplicateHist", "TraceReplicateHist.cfg", tpk)
+        if r.ok:
+            break
+        pos = rpc_util.last_l(r)
+        if r.kind != "invariant" or not pos or r.name not in PROP_INVS | DRIFT_INVS:
+            raise vkit.Infra("history validation failed to run: %s %s at %s\n%s" % (r.kind, r.name, pos, vkit.tail(r.out, 3000)))
+        k = pos - 2                       # 0-based index of the event whose answer falsified the invariant
+        a, b = [(a, b) for a, b in split_histories(rest) if a <= k <= b][0]
+        hist = rest[a:b + 1]
+        if r.name in DRIFT_INVS:
+            drift.append((hist, rest[k]))
+        else:
+            nviol += 1
+            ck.violation("C31: history on ONE server instance: answer #%d %s breaks %s (stateless reference at the time of the request); history: %s" % (
+                k - a, json.dumps(rest[k]), r.name, json.dumps(hist[1:])), {"hist": script_of(hist), "events": hist, "failing_event": rest[k], "invariant": r.name})
+        rest = rest[:a] + rest[b + 1:]
+    if drift and not nviol:
+        raise vkit.Infra("in %d histories the real handler refuses a request that passes every check of the stateless reference (not a C31 violation), e.g. %s in %s" % (
+            len(drift), json.dumps(drift[0][1]), json.dumps(drift[0][0])))
+    return summ["histories"], summ["requests"], nviol, ev
 
 
 def run(ck):
-    ck.tlc_model("Replicate", "Replicate_model.cfg", timeout=300, workers=2)
+    ck.tlc_model("Replicate", "Replicate_model.cfg", timeout=600, workers=4)
     binp = ck.gobuild("rpc")
     recs_path = os.path.join(ck.tmp, "replicate.ndjson")
+    if ck.replay and "hist" in json.load(open(ck.replay))["replay"]:
+        nh, nr, nv, hev = histories(ck, binp)
+        ck.setcov("traces_validated_against_impl", nh)
+        ck.setcov("evaluations", nr)
+        ck.setcov("distinct_nontrivial", nr)
+        ck.setcov("rule", "replayed history judged by TraceReplicateHist")
+        ck.sample({"history_events": hev[:12]})
+        return
     if ck.replay:
         ck.harness(binp, ["replicate-replay", os.path.abspath(ck.replay), recs_path])
     else:
@@ -59,13 +148,25 @@ def run(ck):
         acc = [r for r in recs if r["out"]["ok"]]
         if len(recs) < 500 or not acc or len({r["in"]["client"] for r in acc}) < 2:
             raise vkit.Infra("vacuous enumeration: %d records, %d accepted" % (len(recs), len(acc)))
-    ck.setcov("traces_validated_against_impl", len(recs))
-    ck.setcov("evaluations", len(recs))
-    ck.setcov("distinct_nontrivial", len({json.dumps(r["in"], sort_keys=True) for r in recs}))
+    nh = nr = 0
+    hev = []
+    if not ck.replay:
+        nh, nr, nv, hev = histories(ck, binp)
+        nviol += nv
+    ck.setcov("histories_replayed", nh)
+    ck.setcov("history_requests", nr)
+    ck.setcov("traces_validated_against_impl", len(recs) + nh)
+    ck.setcov("evaluations", len(recs) + nr)
+    ck.setcov("distinct_nontrivial", len({json.dumps(r["in"], sort_keys=True) for r in recs}) + len({json.dumps(script_of(hev[a:b + 1]), sort_keys=True) for a, b in split_histories(hev)}))
     ck.setcov("accepted_records", sum(1 for r in recs if r["out"]["ok"]))
     ck.setcov("status_codes", sorted({r["out"]["code"] for r in recs}))
-    ck.setcov("rule", "TraceReplicate: out.ok => Replicate!Accept(in); (out.stored or object present in the engine) => Accept(in); out.ok => stored and present; (Accept(in) => out.ok checked as drift)")
-    for r in ([x for x in recs if x["out"]["ok"]][:1] + [x for x in recs if not x["out"]["ok"]][:2]):
+    ck.setcov("rule", "TraceReplicate (independent requests) and TraceReplicateHist (2-4 requests on one server while epochs / membership change): out.ok => Replicate!Accept(in); (out.stored or object present in the engine) => Accept(in); out.ok => stored and present; (Accept(in) => out.ok checked as drift)")
+    for r in ([x for x in recs if x["out"]["ok"]][:1] + [x for x in recs if not x["out"]["ok"]][:1]):
         ck.sample(r)
+    for a, b in split_histories(hev):
+        if sum(1 for e in hev[a:b + 1] if e["ev"] == "Req" and e["out"]["ok"]) >= 2:
+            ck.sample({"history": hev[a + 1:b + 1]})
+            break
     ck.assumptions.append("mapping concrete request -> abstract input is the harness's construction (which key signed what, which membership the fake FS chain reports, how the object was damaged)")
+    ck.assumptions.append("histories: the membership / epoch the fake FS chain reports at the time of each request is the ground truth; one container, two senders, 0-4 requests and up to 9 steps per history")
     ck.assumptions.append("object validation = real putsvc.ValidateAndStoreObjectLocally with split/tombstone verifiers stubbed; `stored` is observed at the local-storage leaf and re-read from the engine")
